@@ -105,6 +105,10 @@ var c12classes = []c12class{
 	{"call-nil-value-prefix-form", `{{ zq_msi.absent: 1 }}`, true, false},
 	{"call-nil-value-in-expression", `{{ 1 + zq_msi.absent(1) }}`, true, false},
 	{"call-nil-value-piped", `{{ 1 | zq_msi.absent }}`, true, false},
+	{"embedded-field-of-unexported-type-by-name", `{{ zq_emb.c12hidden }}`, true, false},
+	{"embedded-field-of-unexported-type-as-argument", `{{ trimSpace(zq_emb.c12hidden) }}`, true, false},
+	{"string-plus-nil", `{{ "text" + nil }}`, true, false},
+	{"string-plus-absent-map-entry", `{{ "Hello, " + zq_msi.absent }}`, true, false},
 	{"call-nil-value-without-arguments", `{{ zq_msi.absent() }}`, true, false},
 	{"call-nil-variable-without-arguments", `{{ zq_hook := nil }}{{ zq_hook() }}`, true, false},
 	{"call-nil-value-without-arguments-in-expression", `{{ "" + zq_msi.absent() }}`, true, false},
@@ -162,6 +166,12 @@ var c12classes = []c12class{
 }
 
 // c12runtimeError returns a genuine runtime.Error value (index out of range), recovered.
+type c12hidden struct{ Secret string }
+type c12outer struct {
+	c12hidden
+	Pub string
+}
+
 func c12runtimeError() (err error) {
 	defer func() { err, _ = recover().(error) }()
 	var xs []int
@@ -183,6 +193,7 @@ func c12extra() map[string]interface{} {
 		"zq_join":     func(sep string, parts ...string) string { return strings.Join(parts, sep) },
 		"zq_cat":      func(parts ...string) string { return strings.Join(parts, "") },
 		"zq_msi":      map[string]int{"a": 1},
+		"zq_emb":      c12outer{c12hidden: c12hidden{Secret: "s"}, Pub: "p"},
 		"zq_now":      func() string { return "now" },
 		"zq_users":    map[string]c12struct{"alice": {A: "a"}},
 		"zq_cfg":      map[string]interface{}{"db": map[string]interface{}{"host": "h"}},
